@@ -1192,6 +1192,14 @@ func (l *Ledger) VerifyBlock(block *pb.InternalBlock, logid string) (bool, error
 		return false, nil
 	}
 
+	// the merkle tree pads an odd level with a copy of its last node, so only
+	// the (hashed) count tells [a,b,c] from [a,b,c,c]
+	if int(block.TxCount) != len(block.Transactions) {
+		l.xlog.Warn("VerifyBlock tx count error", "logid", logid, "txCount", block.TxCount,
+			"transactions", len(block.Transactions))
+		return false, nil
+	}
+
 	errv := VerifyMerkle(block)
 	if errv != nil {
 		l.xlog.Warn("VerifyMerkle error", "logid", logid, "error", errv)
